@@ -17,6 +17,7 @@ EXPLANATION = (
     "message and all children (C09 rules), incomplete tasks are still yielded.  What the OS does with "
     "flushed data on SIGKILL, and error-freedom of the parser on every truncated real output, are NOT decided."
     "  The text/binary probe of FileDestination (C10.mode) is included: a file handed the wrong kind of data rejects every write while the calls still return."
+    "  The threaded writer's own rules (C19: unregister before the stop marker is queued, reader leaves only on the marker, a destination failure is contained inside the loop, one delivery per dequeued item) are part of this property as well."
 )
 RULE = ("obligation = one link of the acknowledgement chain or one parser completeness rule; non-trivial = "
         "CFG paths examined")
